@@ -1424,6 +1424,23 @@ class Normalizer:
                 self.stats['idioms'] += 1
                 return [asg, s]
         # for x in (a, b, c): body   ->   body[x:=a] ; body[x:=b] ; body[x:=c]     (short literal sequences only)
+        # for a, b in ((x1, y1), (x2, y2)): body  ->  the same with the pairs taken apart
+        if isinstance(s, ast.For) and not s.orelse and isinstance(s.target, ast.Tuple) and all(isinstance(t, ast.Name) for t in s.target.elts) and isinstance(s.iter, (ast.Tuple, ast.List)) and 0 < len(s.iter.elts) <= 6 and all(isinstance(e, (ast.Tuple, ast.List)) and len(e.elts) == len(s.target.elts) and all(_is_simple_arg(x) for x in e.elts) for e in s.iter.elts):
+            body_nodes = [n for b in s.body for n in [b] + list(_local_walk(b))]
+            tn = {t.id for t in s.target.elts}
+            assigned = any(isinstance(n, ast.Name) and n.id in tn and isinstance(n.ctx, (ast.Store, ast.Del)) for n in body_nodes)
+            jumps = any(isinstance(n, (ast.Break, ast.Continue)) for n in body_nodes)
+            nested_defs = any(isinstance(n, FuncNode + (ast.Lambda, ast.ClassDef)) for n in body_nodes)
+            if not assigned and not jumps and not nested_defs:
+                out = []
+                for e in s.iter.elts:
+                    m_ = {t.id: x for t, x in zip(s.target.elts, e.elts)}
+                    for b in s.body:
+                        out.append(_Subst({}, m_).visit(copy.deepcopy(b)))
+                for o in out:
+                    ast.fix_missing_locations(o)
+                self.stats['idioms'] += 1
+                return out
         if isinstance(s, ast.For) and not s.orelse and isinstance(s.target, ast.Name) and isinstance(s.iter, (ast.Tuple, ast.List)) and 0 <= len(s.iter.elts) <= 6 and not any(isinstance(e, ast.Starred) for e in s.iter.elts):
             body_nodes = [n for b in s.body for n in [b] + list(_local_walk(b))]
             assigned = any(isinstance(n, ast.Name) and n.id == s.target.id and isinstance(n.ctx, (ast.Store, ast.Del)) for n in body_nodes)
@@ -2389,6 +2406,11 @@ class Normalizer:
                         q = f'{cname}.{st.targets[0].id}'
                         if q not in known and _static_value(st.value) and not self._mutated(tree, st.targets[0].id, st.value):
                             cls_consts[(cname, st.targets[0].id)] = st.value
+                    # `NAME: ClassVar[..] = <literal>` (not a dataclass field)
+                    elif isinstance(st, ast.AnnAssign) and isinstance(st.target, ast.Name) and st.value is not None and any((isinstance(x, ast.Name) and x.id == 'ClassVar') or (isinstance(x, ast.Attribute) and x.attr == 'ClassVar') for x in ast.walk(st.annotation)):
+                        q = f'{cname}.{st.target.id}'
+                        if q not in known and _static_value(st.value) and not self._mutated(tree, st.target.id, st.value):
+                            cls_consts[(cname, st.target.id)] = st.value
             if not mod_consts and not cls_consts:
                 continue
             # constants may refer to each other
